@@ -13,5 +13,8 @@ func checks() []check {
 			{Name: "vethname", Pkg: "pkg/link", Run: "^TestVerifC14VethName$"},
 			{Name: "ipvlan-dst-rule", Pkg: "plugin/datapath", Run: "^TestVerifC14DstRule$"},
 		}, Assume: []string{"u32 semantics: a key matches iff ((be32(pkt[off:off+4]) ^ val) & mask) == 0 (net/sched/cls_u32.c); netip.Prefix.Contains is the reference for CIDR membership"}},
+		{ID: "C15", Level: "model_checking", Parts: []part{
+			{Name: "bandwidth", Pkg: "pkg/k8s", Run: "^TestVerifC15Bandwidth$"},
+		}},
 	}
 }
